@@ -24,15 +24,27 @@ pub struct WireState {
     pub flushes: usize,
     /// when set, a write never completes (transport stall)
     pub stall: bool,
+    /// back-pressure: accept at most this many bytes per `poll_write` call
+    pub max_write: Option<usize>,
+    /// back-pressure: every other `poll_write` returns Pending first
+    pub pend_toggle: bool,
+    pub pend_state: bool,
 }
 
 pub struct RecWriter(pub Arc<Mutex<WireState>>);
 
 impl AsyncWrite for RecWriter {
-    fn poll_write(self: Pin<&mut Self>, _cx: &mut Context<'_>, buf: &[u8]) -> Poll<std::io::Result<usize>> {
+    fn poll_write(self: Pin<&mut Self>, cx: &mut Context<'_>, buf: &[u8]) -> Poll<std::io::Result<usize>> {
         let mut w = self.0.lock().unwrap();
         if w.stall {
             return Poll::Pending;
+        }
+        if w.pend_toggle {
+            w.pend_state = !w.pend_state;
+            if w.pend_state {
+                cx.waker().wake_by_ref();
+                return Poll::Pending;
+            }
         }
         if w.shutdown {
             return Poll::Ready(Err(std::io::Error::new(std::io::ErrorKind::BrokenPipe, "transport shut down")));
@@ -43,8 +55,9 @@ impl AsyncWrite for RecWriter {
             }
             w.budget = Some(b - 1);
         }
-        w.writes.push(buf.to_vec());
-        Poll::Ready(Ok(buf.len()))
+        let n = match w.max_write { Some(m) if m > 0 => std::cmp::min(m, buf.len()), _ => buf.len() };
+        w.writes.push(buf[..n].to_vec());
+        Poll::Ready(Ok(n))
     }
     fn poll_flush(self: Pin<&mut Self>, _cx: &mut Context<'_>) -> Poll<std::io::Result<()>> {
         let mut w = self.0.lock().unwrap();
@@ -126,6 +139,8 @@ pub struct Node {
     pub seen_writes: usize,
     pub dec_buf: BytesMut,
     pub tasks: Vec<tokio::task::JoinHandle<()>>,
+    /// short-write mode: report the total of the new writes instead of the per-call lengths
+    pub coalesce: bool,
 }
 
 pub fn install_draws(seed: u64) {
@@ -200,7 +215,7 @@ impl Node {
             tasks.push(tokio::spawn(async move { let _ = s2.process_stream_data().await; }));
             start_res = "ok".into();
         }
-        let mut n = Node { is_client, session, wire, feed, handles: vec![], cb_rx, delivered: vec![], seen_writes: 0, dec_buf: BytesMut::new(), tasks };
+        let mut n = Node { is_client, session, wire, feed, handles: vec![], cb_rx, delivered: vec![], seen_writes: 0, dec_buf: BytesMut::new(), tasks, coalesce: false };
         settle().await;
         let d = n.delta().await;
         Ok((n, format!("{start_res}{d}")))
@@ -221,7 +236,7 @@ impl Node {
         tasks.push(tokio::spawn(async move { let _ = s1.recv_loop().await; }));
         let s2 = session.clone();
         tasks.push(tokio::spawn(async move { let _ = s2.process_stream_data().await; }));
-        let mut n = Node { is_client: false, session, wire, feed, handles: vec![], cb_rx: Some(rx), delivered: vec![], seen_writes: 0, dec_buf: BytesMut::new(), tasks };
+        let mut n = Node { is_client: false, session, wire, feed, handles: vec![], cb_rx: Some(rx), delivered: vec![], seen_writes: 0, dec_buf: BytesMut::new(), tasks, coalesce: false };
         settle().await;
         n.delta().await;
         n
@@ -239,7 +254,11 @@ impl Node {
         let (lens, frames, shut) = {
             let w = self.wire.lock().unwrap();
             let new = &w.writes[self.seen_writes..];
-            let lens: Vec<String> = new.iter().map(|x| x.len().to_string()).collect();
+            let mut lens: Vec<String> = new.iter().map(|x| x.len().to_string()).collect();
+            if self.coalesce {
+                let total: usize = new.iter().map(|x| x.len()).sum();
+                lens = if total > 0 { vec![total.to_string()] } else { vec![] };
+            }
             for x in new { self.dec_buf.extend_from_slice(x); }
             self.seen_writes = w.writes.len();
             let mut frames = vec![];
@@ -328,6 +347,14 @@ impl Node {
                     Ok((Ok(()), buf)) => format!("ok {}", hex_compact(&buf)),
                     Ok((Err(_), _)) => "err-eof".into(),
                 }
+            }
+            ["shortw", k] => {
+                let Ok(k) = k.parse::<usize>() else { return "bad-op".into() };
+                let mut w = self.wire.lock().unwrap();
+                w.max_write = if k == 0 { None } else { Some(k) };
+                w.pend_toggle = k % 2 == 1;
+                self.coalesce = k > 0;
+                "ok".into()
             }
             ["close"] => res_str(&self.session.close().await),
             ["state"] => {
